@@ -524,8 +524,36 @@ def check_time_average(run, pkg):
             if cand:
                 w = max(cand, key=lambda x: len(show(x)))
                 ok_slice = tri(eqv(sl[1], n), eqv(sl[2], ("bin", "+", n, w)), eqv(sl[3], NONE), eqv(kw(val, "axis", 1), C(0)))
+    wit_w = "window slice / mean axis differ"
+    if ok_slice is not True and val[0] == "call" and val[1] in (".mean", "numpy.mean") and val[2] and val[2][0][0] == "sub" and val[2][0][1] == ("sym", "input_property") \
+            and val[2][0][2][0] == "slice" and val[2][0][2][3] == NONE:
+        # slice bounds written differently (e.g. around the middle frame): evaluated for window lengths 1..8 with the truncated
+        # quotient bound to the length - the slice must be exactly [n, n + w)
+        sl = val[2][0][2]
+        cand = [x for x in walk(sl) if x[0] == "call" and x[1] in ("builtins.int", "math.floor", "numpy.floor", "builtins.round")]
+        if cand:
+            wt = max(cand, key=lambda x: len(show(x)))
+            from ..concrete import ev as cev
+            try:
+                bad = None
+                for W in range(1, 9):
+                    for nv in (0, 1, 5):
+                        lo = cev(sl[1], {n: nv, wt: W}) if sl[1] != NONE else 0
+                        hi = cev(sl[2], {n: nv, wt: W})
+                        if (int(lo), int(hi)) != (nv, nv + W):
+                            bad = f"window length {W}, n = {nv}: the mean is taken over frames [{int(lo)}, {int(hi)}) - {int(hi) - int(lo)} frames - instead of [{nv}, {nv + W})"
+                            break
+                    if bad:
+                        break
+                if bad:
+                    ok_slice, wit_w = False, bad
+                elif w is None:
+                    w = wt
+                    ok_slice = eqv(kw(val, "axis", 1), C(0))
+            except Exception:  # noqa
+                pass
     run.ob("R-ALG", fq, "window", ok_slice, "row n is the mean over frames n .. n+w-1 (axis 0)", show(val)[:100],
-           witness=None if ok_slice else "window slice / mean axis differ", loc=loc_of(it, ev), sound=True)
+           witness=None if ok_slice else wit_w, loc=loc_of(it, ev), sound=True)
     if w is None:
         return
     # window length definition
